@@ -105,4 +105,13 @@ def run (N : Nat) : St α → List Op → List (Out α)
   | _, [] => []
   | s, op :: ops => (step L N s op).1 :: run N (step L N s op).2 ops
 
+/-! ### the entropy-seeded constructors -/
+
+/-- `X::new()` for a generator whose state is `words` 32-bit words: ONE fetch of the whole state
+(`getentropy(&mut state)` / `util::getrandom()`), the state words are the fetched words in order;
+a failing fetch panics (`none`). `words`: 8 for Xoshiro256, 2 for SplitMix64 / Wyrand, 12 for
+ChaCha (key, counter, stream). -/
+def newState {α : Type} (L : Labels α) (words : Nat) (script : List Bool) : Option (List α) :=
+  if script.headD true then some ((List.range words).map (L.good 0)) else none
+
 end Urandom.SystemGen
